@@ -617,6 +617,8 @@ func (r *Run) runHandlerOps(ctx context.Context, stream grpc.ServerStream) {
 					err = stream.SetHeader(metadata.MD{"late": {"y"}})
 				})
 				r.rec(Event{Who: "hg", Op: "late-meta", Err: err, Pan: pan})
+				pan = guard(func() { err = stream.SendHeader(metadata.MD{"late": {"z"}}) })
+				r.rec(Event{Who: "hg", Op: "late-sendheader", Err: err, Pan: pan})
 			}()
 		case "sendraw":
 			if stream == nil {
